@@ -71,6 +71,11 @@ CLAIMS['C14'] = dict(level='other', technique='MIR write-set closure of sort ove
     note='Narrow necessary conditions; stated as such.',
     ref='§4 C14')
 
+CLAIMS['C17'] = dict(level='other', technique='sibling column agreement on MIR between the validator (parser.rs) and the compatibility walk (which version accessors each calls, on which data), control-dependence of the version store on the compatibility gate, accumulation of the returned mask',
+    text='Decides that the compatibility walk consults every version column the validator consults (sub-element mask, re-selected element type, attribute mask, enum masks of attribute values AND of element character content - the last one was missing and was repaired), that ArxmlFileRaw.version is stored only by the constructors and behind the `no incompatibility` edge of set_version, which writes nothing else, and that the returned mask is the AND of every consulted mask. Does not decide the iff for all documents x 21^2 version pairs.',
+    note='Shape only: a wrong condition inside a consulted accessor is invisible here (C18 covers the tables).',
+    ref='§4 C17')
+
 NA = {
     'C16': 'serialisability quantifies over interleavings and compares with sequential runs; the only static route (two-phase/reduction analysis) rejects essentially every public operation of the present design, so it cannot separate code that holds the property from code that does not',
     'C20': 'statement about numeric results (exactness, correct rounding, overflow per width) computed by std parsers for all texts; no static argument in reach bounds these run-time quantities',
